@@ -25,6 +25,7 @@ type Unit struct {
 	Recv   *types.Named
 	RecvPtr bool
 	Lemma  *LemmaContract
+	Inst   *InstanceCheck
 	Props  []string
 }
 
@@ -248,6 +249,10 @@ func verifyUnit(ld *Loader, db *ContractDB, specs *SpecLib, u *Unit) (res *UnitR
 	x.setupPkgDirectives()
 	if u.Lemma != nil {
 		x.lemmaUnit(u)
+		return
+	}
+	if u.Inst != nil {
+		x.instUnit(u)
 		return
 	}
 	x.proc = u.Proc
@@ -492,6 +497,31 @@ func (x *Exec) checkPost(u *Unit, e, entry *State, mk func(*State, bool) *CEnv, 
 	kind := "post"
 	if u.Impl != nil {
 		kind = "subtype"
+		if _, has := u.Impl.Models[u.Method]; has && len(res) == 1 {
+			func() {
+				defer func() {
+					if r := recover(); r != nil {
+						if ce, ok := r.(cevalErr); ok {
+							x.contractError(e, "subtype:model", fmt.Errorf("%s", string(ce)), n)
+							return
+						}
+						panic(r)
+					}
+				}()
+				ps := u.Impl.MParams[u.Method]
+				var args []CExpr
+				for i := range ps {
+					args = append(args, CIdent{fmt.Sprintf("$%d", i+1)})
+				}
+				env.where = "model " + u.Method
+				if t, ok := x.expandModel(env, env.impl, u.Method, args); ok {
+					if t.Sort != res[0].Sort {
+						x.cfail(env, "model of %s has sort %s, the method returns %s", u.Method, t.Sort, res[0].Sort)
+					}
+					x.oblige(e, "subtype", "model:"+u.Method, tEq(res[0], t), n, "method returns its model: "+u.Impl.Models[u.Method].Src)
+				}
+			}()
+		}
 	}
 	for i, c := range pc.Ensures {
 		t, err := x.cevalSafe(env, c, "Bool")
@@ -534,6 +564,10 @@ func (x *Exec) subtypeUnit(u *Unit) {
 		tsub[tps.At(i).Obj().Name()] = x.sortOf(u.Iface.TypeArgs().At(i))
 	}
 	impl := &implCtx{self: self, ic: u.Impl}
+	selfVal := self
+	if _, s, _ := structBehind(recvT); s == nil {
+		selfVal = x.loadCell(st, self, recvT)
+	}
 	// find the method: declared on the type, or promoted
 	var mobj *types.Func
 	ms := types.NewMethodSet(recvT)
@@ -573,7 +607,7 @@ func (x *Exec) subtypeUnit(u *Unit) {
 		args = append(args, t)
 	}
 	ghosts := map[string]Term{}
-	mk := x.makeEnv(isig, "", self, entry, ghosts, tsub, impl)
+	mk := x.makeEnv(isig, "", selfVal, entry, ghosts, tsub, impl)
 	// object invariant and interface precondition hold on entry
 	for _, c := range u.Impl.ObjInv {
 		env := mk(st, true)
@@ -666,6 +700,10 @@ func (x *Exec) subtypeUnit(u *Unit) {
 	// promoted method: synthesised body `return self.<path>.M(args...)`
 	recv := self
 	rT := recvT
+	if !u.RecvPtr {
+		recv = x.derefWhole(st, self, u.Recv, nil)
+		recv.Ty = u.Recv
+	}
 	path := msel.Index()
 	for _, idx := range path[:len(path)-1] {
 		recv = x.fieldByIndex(st, recv, rT, idx, nil)
@@ -710,6 +748,11 @@ func (x *Exec) subtypeUnit(u *Unit) {
 		sub[otps.At(i).Obj().Name()] = x.sortOf(owner.TypeArgs().At(i))
 	}
 	x.nilCheck(st, recv, nil)
+	if pc.Pure {
+		if ms, ok := x.methodUF(in, u.Method); ok && len(args) == len(ms.args) {
+			x.resultOverride = []Term{tApp(ms.ret, ms.fname, append([]Term{recv}, args...)...)}
+		}
+	}
 	x.byContract(st, fr, nil, pc, mobj.Origin().Type().(*types.Signature), isig, recv, args, sub, owner.Obj().Pkg().Path(), func(s2 *State, res []Term) {
 		fr.ret(s2, res)
 	})
@@ -739,6 +782,22 @@ func (x *Exec) transitiveCapturedWrites(fl *ast.FuncLit, seen map[*ast.FuncLit]b
 		return true
 	})
 	return out
+}
+
+// instUnit: a package-level instance (eq.Int, ord.String ...) must be a value of the named
+// type whose methods are under contract; otherwise the contracts say nothing about it.
+func (x *Exec) instUnit(u *Unit) {
+	st := newState()
+	obj := x.pkg.Types.Scope().Lookup(u.Inst.Name)
+	ok := false
+	got := "nothing"
+	if obj != nil {
+		got = obj.Type().String()
+		if n := namedOf(obj.Type()); n != nil && n.Origin().Obj().Name() == u.Inst.Type {
+			ok = true
+		}
+	}
+	x.oblige(st, "instance", u.Inst.Name, boolT(ok), nil, fmt.Sprintf("%s must be an instance of %s (found %s)", u.Inst.Name, u.Inst.Type, got))
 }
 
 // lemmaUnit: a property-level consequence of contracts and spec functions.
@@ -810,6 +869,16 @@ func unitsOf(ld *Loader, db *ContractDB, pkg *Pkg, cf *ContractFile, prop string
 			continue
 		}
 		named := namedOf(obj.Type())
+		if named.TypeParams().Len() > 0 && named.TypeArgs() == nil {
+			// a generic type is verified once, instantiated with its own type parameters
+			var targs []types.Type
+			for i := 0; i < named.TypeParams().Len(); i++ {
+				targs = append(targs, named.TypeParams().At(i))
+			}
+			if inst, err := types.Instantiate(nil, named, targs, false); err == nil {
+				named = namedOf(inst)
+			}
+		}
 		x := newExec(ld, db, pkg, cf, nil)
 		in := x.resolveIfaceFor(named, ic.Iface)
 		if in == nil {
@@ -855,6 +924,11 @@ func unitsOf(ld *Loader, db *ContractDB, pkg *Pkg, cf *ContractFile, prop string
 			}
 			units = append(units, &Unit{Name: fmt.Sprintf("%s.(%s).%s<:%s", pkg.Types.Name(), ic.Type, m, ic.Iface), Pkg: pkg, CF: cf, Proc: mp,
 				Impl: ic, Iface: in, Method: m, Recv: named, RecvPtr: strings.HasPrefix(ic.Type, "*"), Props: props})
+		}
+	}
+	for _, in := range cf.Insts {
+		if hasProp(in.Props, prop) {
+			units = append(units, &Unit{Name: pkg.Types.Name() + ".instance." + in.Name, Pkg: pkg, CF: cf, Inst: in, Props: in.Props})
 		}
 	}
 	for _, lm := range cf.Lemmas {
